@@ -89,7 +89,7 @@ PROPS = {
                     "machine integers are modelled exactly (Verus checks overflow), allocation failure is out of scope"],
   },
   "C18": {
-    "units": ["framer"],
+    "units": ["framer", "nonce"],
     "kani_quick": [],
     "kani_thorough": ["vk_lpf_record_prefix"],
     "claim": "Record layer only: for ANY cipher (encrypt/decrypt abstract), LengthPrefixedFramer::write_msg_batch/write_msg_multipart return either an error or a record whose 16-bit big-endian "
@@ -238,7 +238,10 @@ PROPS["C04"]["units"] = ["engine", "framer", "c03lem", "dec", "codec", "hsout"]
 
 PROPS["C18"]["claim"] = ("Record layer only, for ANY cipher (encrypt/decrypt abstract): writers return either an error or a record whose 16-bit big-endian length prefix equals the number of ciphertext bytes that follow; "
                          "the reader (LengthPrefixedFramer::try_read_msg) cuts records exactly at their announced length, consumes them whole and in order, hands each to the cipher exactly once, and leaves an incomplete record untouched "
-                         "(so the outcome does not depend on read boundaries). Secrecy, tamper detection and nonce freshness are cryptographic and not decided here.")
+                         "(so the outcome does not depend on read boundaries). "
+                         "CURVE data cipher (unit nonce, feature curve): counters start where they are and every encrypt hands the current send counter to the primitive exactly once before advancing it by one (nonces of one direction of one session are pairwise distinct); "
+                         "decrypt advances the receive counter only for a record that authenticates (a forged / replayed / reordered record cannot move it) and refuses a record shorter than a MAC before any crypto; encrypt uses the encode key, decrypt the decode key. "
+                         "Secrecy, tamper detection by the AEAD itself and cross-session nonce/key freshness are cryptographic and not decided here.")
 
 PROPS["C13"] = {
   "units": ["lb", "route"],
@@ -280,7 +283,7 @@ PROPS["C05"] = {
 }
 
 PROPS["C11"] = {
-  "units": ["framing", "routerrecv", "routermap", "flags"],
+  "units": ["framing", "routerrecv", "routermap", "flags", "routerfrag"],
   "kani_quick": [], "kani_thorough": [],
   "claim": "Envelope handling only, proved for every message shape (any number of frames up to the container limit, empty frames anywhere): ROUTER's automatic delimiter is inserted right after the identity and removed from exactly that slot, "
            "DEALER's is prepended and stripped, the payload frames after it are unchanged frame for frame (decode after encode restores the payload); REP's extract_routing_prefix splits at the first empty frame, loses and reorders nothing, "
@@ -290,7 +293,9 @@ PROPS["C11"] = {
            "and the finalize signal is subscribed to before the last check for releasable data (no lost wake-up window). "
            "RouterMap (identity <-> connection maps, unit routermap): after add_peer / update_peer_identity the identity routes to the connection that announced it (also when the identity was already in the map: take-over), "
            "the pipe is labelled with it, the pipe's previous label (placeholder) no longer routes, every other identity and pipe entry is untouched; detaching a pipe removes its label and its identity's route "
-           "unless another pipe has taken that identity over, in which case the route of the live connection is kept.",
+           "unless another pipe has taken that identity over, in which case the route of the live connection is kept. "
+           "ROUTER pipe_detached (whole function, unit routerfrag): a detached pipe loses BOTH its identity label and its pass through the identity gate (and its held batches), preserving the pair invariant "
+           "'no pipe passes the gate without an identity label' that keeps late messages from being labelled with the pipe:N placeholder; other pipes are untouched.",
   "level_note": "The identity gate itself (pipe_finalized DashMap, held_ingress map, take_finalized_held with HashMap::keys().find()) enters as an abstract stand-in with a monotone `finalized` predicate. RouterMap is verified with the sequential lock model (its mutations come from the socket core's event loop; remove_peer_by_read_pipe takes its two locks one after the other); "
                 "HashMap<Blob, _> uses vstd's HashMap specification with the ASSUMED key model for Blob (derived Eq/Hash over its bytes). Not covered: RouterMap::remove_peer_by_identity (HashMap iteration), the identity gate versus racing messages, ROUTER_MANDATORY error mapping, REQ's envelope handling in req_socket.rs "
                 "(inside async code with tokio::select!). Encode requires the batch to have room for one more frame (derived precondition len < 255).",
